@@ -290,6 +290,12 @@ class Bundle:
             return ns[key]
         return object.__getattribute__(self, key)
 
+    def __delattr__(self, __name: str) -> None:
+        """Disable attribute deletion, as for `Module`s.
+        Nothing is removed from a Bundle, its own private attributes (`_initialized` et al) included."""
+        msg = f"Cannot delete Bundle attribute {__name} of {self}"
+        raise RuntimeError(msg)
+
     def __call__(self, **kwargs):
         """Calls to Bundles return Bundle Instances"""
         return BundleInstance(of=self, **kwargs)
